@@ -34,6 +34,7 @@ import DiskfsModel.Proofs.IsoPT
 import DiskfsModel.Proofs.IsoComposePT
 import DiskfsModel.Proofs.IsoRRRecord
 import DiskfsModel.Proofs.IsoSvd
+import DiskfsModel.Proofs.IsoComposeLimits
 import DiskfsModel.Generated.Iso
 namespace Diskfs.Iso.C06
 
@@ -655,6 +656,15 @@ example : ws.PtOK wsO.pt :=
     dirs := by intro d hd; simp only [wsO, List.mem_cons, List.not_mem_nil, or_false] at hd; rcases hd with rfl | rfl <;> decide
     parent := by intro d hd h0; simp only [wsO, List.mem_cons, List.not_mem_nil, or_false] at hd; rcases hd with rfl | rfl <;> first | exact absurd rfl h0 | decide }
 
+/-- pinned facts regenerated from rockridge.go / finalize.go: the room for component records in one SL
+    entry (`directoryEntryMaxSize - headerSize`, headerSize evaluated from its literal sum) is the model's
+    `slMaxComp`, the bound 248 of `sl_roundtrip` is what keeps an entry's length byte (room + 5 + 3) below
+    256, and `copyFileData` copies in chunks of the model's `copyChunk` -/
+theorem facts_agree_sl :
+    Generated.Iso.directoryEntryMaxSize - Generated.Iso.slHeaderSize = slMaxComp ∧
+    Generated.Iso.slMaxComponent_expr = "directoryEntryMaxSize - headerSize" ∧
+    248 + 2 + 5 = 255 ∧ Generated.Iso.copyChunkSize = copyChunk := by decide
+
 /-! ## one Rock Ridge record end to end: NM + SL + continuation areas composed -/
 
 /-- **rr_record_roundtrip** (names and link targets are preserved exactly under Rock Ridge, at the level
@@ -732,5 +742,27 @@ private def exSVD : SVD :=
   { flags := 0, esc := [37, 47, 69] ++ zeros 29, d := { imI.pvd with volSize := 30, ptL := 27, ptM := 28 } }
 example : decodeSVD (encodeSVD exSVD) = some exSVD ∧ isJolietEsc exSVD.esc = true :=
   ⟨(svd_roundtrip exSVD ⟨by decide, by simp [PVD.WF, exSVD, imI, imT, PTree.selfRec, PTree.recOf, imDate]⟩).1, by decide⟩
+
+/-- **workspace_roundtrip_format_limits**: conclusion (1) of `workspace_roundtrip` under the limits of the
+    FORMAT instead of "image below 4 GiB" (`WTree.Limits`): the volume has fewer than 2^32 blocks, EVERY FILE
+    is smaller than 4 GiB, a directory has at most 2^25 - 2 entries (its extent — at most 96 bytes per
+    record, `dsize_le` — then fits 32 bits), the path table lists at most 2^27 directories, all of them
+    entries of the workspace.  Conclusions (2) and (3) of `workspace_roundtrip` need no size limit at all. -/
+theorem workspace_roundtrip_format_limits (w : WTree) (order : Nat → List Nm) (fin : Nat → Nat → Nm) (bs : Nat) (o : Order)
+    (sysId volId tail : Bytes) (d0 : Dev) (fuel : Nat)
+    (hbs : 2048 ≤ bs) (hbs16 : bs < 2 ^ 16) (hok : w.OK o) (hr : w.Resolved order fin)
+    (hlim : w.Limits fin bs o) (hs : sysId.length = 32) (hv : volId.length = 32) (ht : tail.length = 1858)
+    (hfit : w.Fits fuel 0) :
+    readImageP ((w.image fin bs o sysId volId tail).imageOn d0) (16 * bs) fuel =
+      some ((w.image fin bs o sysId volId tail).pvd, (w.ptree fin (w.loc fin bs o) (w.size fin bs)).walk fuel [] 0) :=
+  compose_reader_lim w order fin bs o sysId volId tail hbs hbs16 hok hr hlim hs hv ht d0 fuel hfit
+
+/-- `Limits` is satisfiable: the concrete workspace above -/
+example : ws.Limits wsFin 2048 wsO :=
+  { total := by decide +kernel
+    files := by intro f hf; simp only [wsO, List.mem_cons, List.not_mem_nil, or_false] at hf; rcases hf with rfl | rfl <;> decide
+    kids := by intro d hd; simp only [wsO, List.mem_cons, List.not_mem_nil, or_false] at hd; rcases hd with rfl | rfl <;> decide
+    ptLen := by decide
+    ptIn := by intro d hd; simp only [wsO, List.mem_cons, List.not_mem_nil, or_false] at hd; rcases hd with rfl | rfl <;> decide }
 
 end Diskfs.Iso.C06
